@@ -5,6 +5,7 @@ import PortusModel.Props.C13
 import PortusModel.Props.C14
 import PortusModel.Props.C01Sim
 import PortusModel.Props.C01Decode
+import PortusModel.Props.Tables
 #print axioms Portus.C01.run_correct_from_bytes
 #print axioms Portus.C01.run_decoded
 #print axioms Portus.C01.compiled_install_decodes
@@ -33,3 +34,12 @@ import PortusModel.Props.C01Decode
 #print axioms Portus.C13.instrs_use_scope
 #print axioms Portus.C14.literal_read_back
 #print axioms Portus.C10.compile_and_serialize_no_panic
+#print axioms Portus.Tables.src_opTable_eq
+#print axioms Portus.Tables.src_opcodes_eq
+#print axioms Portus.Tables.src_regEnc_eq
+#print axioms Portus.Tables.opcodes_shared_with_libccp
+#print axioms Portus.Tables.regclasses_shared_with_libccp
+#print axioms Portus.Tables.indices_fit_libccp
+#print axioms Portus.Tables.primitives_shared_with_libccp
+#print axioms Portus.Tables.implicits_shared_with_libccp
+#print axioms Portus.Tables.libccp_model_constants
